@@ -293,9 +293,11 @@ def run_case(ctx):
                 want = np.linalg.norm(a.ref - b.ref)
                 got = ctx.lib(a.mp.distance, b.mp, what="distance")
                 ctx.count("oracle")
-                nrm = max(np.linalg.norm(a.ref), np.linalg.norm(b.ref), np.linalg.norm(ta), np.linalg.norm(tb))
+                # (scaled by the represented vectors only: how the library splits a state into tensors and prefactor must not
+                # enter the tolerance - with prefactors of 1e-9 the tensor norms would make the check vacuous)
+                nrm = max(np.linalg.norm(a.ref), np.linalg.norm(b.ref))
                 # dis^2 is computed as l1 + l2 - 2 Re<a|b>: absolute error ~ eps * nrm^2 on the square
-                tol = 1e-7 * nrm + 1e-10
+                tol = 1e-7 * nrm
                 ctx.check(abs(got - want) <= tol or abs(got ** 2 - want ** 2) <= 1e-12 * nrm ** 2, "distance|mismatch",
                           got=got, want=want, coeffs_differ=differ)
                 for o in (a, b):
